@@ -29,6 +29,7 @@ CONSTANTS Callers,     \* 1..N, each makes one call
           Twice,       \* callers that make two calls (the others make one)
           Holds,       \* subset of {"pre", "post"}: the harness may hold the client's writes before delivery
                        \* (HoldWrites) / delay their return after delivery (HoldReturns)
+          Refusals,    \* TRUE: the server may also refuse requests (Refuse)
           Fixed        \* findings repaired: "R14" (entry removed on failed send),
                        \*                    "R15" (a frame the client cannot accept ends the connection)
 
@@ -92,6 +93,15 @@ Answer(i) ==
   /\ inbox' = Append(inbox, [kind |-> "reply", tag |-> wire[i].tag, req |-> wire[i].k])
   /\ answered' = answered \cup {i}
   /\ L("Answer", 0, i)
+  /\ UNCHANGED <<pc, tag, obj, rm, res, tagcache, tagnext, free, owner, done, pending, pmu, smu, token, frame, wire, closed, wfail, nbad, ncall, whold>>
+
+\* The server refuses the i-th request: an Rlerror carrying an errno of that request's own (1000 + request id
+\* stands for it).  To the multiplexer this is a reply like any other; the caller must get ITS errno.
+Refuse(i) ==
+  /\ i \in 1..Len(wire) /\ i \notin answered /\ ~closed
+  /\ inbox' = Append(inbox, [kind |-> "reply", tag |-> wire[i].tag, req |-> 1000 + wire[i].k])
+  /\ answered' = answered \cup {i}
+  /\ L("Refuse", 0, i)
   /\ UNCHANGED <<pc, tag, obj, rm, res, tagcache, tagnext, free, owner, done, pending, pmu, smu, token, frame, wire, closed, wfail, nbad, ncall, whold>>
 
 \* A frame the client cannot accept: a tag nobody has outstanding, a reply of
@@ -273,7 +283,7 @@ Internal(k) == Start(k) \/ SendLock(k) \/ Send(k) \/ SendRet(k) \/ WaitDone(k) \
                \/ Deliver(k) \/ Bcast(k) \/ Ret(k)
 
 Stimulus == \/ \E k \in Callers : Begin(k)
-            \/ \E i \in 1..Len(wire) : Answer(i) \/ Bad("badtype", i) \/ Bad("badbody", i) \/ Bad("cut", i)
+            \/ \E i \in 1..Len(wire) : Answer(i) \/ (Refusals /\ Refuse(i)) \/ Bad("badtype", i) \/ Bad("badbody", i) \/ Bad("cut", i)
             \/ Bad("badtag", 0) \/ Bad("garbage", 0) \/ Close \/ FailWrites \/ HoldWrites \/ HoldReturns \/ ReleaseReturns
 
 Next == Stimulus \/ \E k \in Callers : Internal(k)
@@ -288,7 +298,7 @@ Active(k) == pc[k] \in {"sendlock", "send", "sent", "wait", "tok", "recv", "deli
 DistinctTags == \A a, b \in Callers : (a # b /\ Active(a) /\ Active(b)) => (tag[a] # tag[b] /\ tag[a] # NoTag)
 
 \* a call that returns success has received the reply to its own request
-OwnReply == \A k \in Callers : (pc[k] = "done" /\ res[k] = "ok") => rm[k] = 10 * ncall[k] + k
+OwnReply == \A k \in Callers : (pc[k] = "done" /\ res[k] = "ok") => rm[k] % 1000 = 10 * ncall[k] + k
 
 \* After the connection broke, every pending and later call returns an error;
 \* after an unacceptable frame the calls pending then return an error: no
